@@ -1,7 +1,7 @@
 #!/bin/bash
 # seed_rerun.sh [ID-prefix] : re-confirm every stored seeded change in a scratch worktree of /repo's HEAD and run the property's quick
 # check against it (VERIF_REPO points the check at the patched worktree, /repo itself is not touched); rewrites seeded/*/meta.json
-WT=/tmp/seed/rerun-wt
+WT=/tmp/seed/rerun-wt-${1:-all}
 git -C /repo worktree remove --force $WT 2>/dev/null; git -C /repo worktree add -q --detach $WT HEAD || exit 2
 trap 'git -C /repo worktree remove --force $WT 2>/dev/null' EXIT
 for S in /verif/seeded/${1}*; do
